@@ -32,6 +32,29 @@ prop("C03", "proof",
      "positions = Ok, |to_bytes p| = 272 + 32 U, from_bytes(to_bytes p) = Ok p; index lemmas (complement, U + R = L, sort/dedup) by induction. Tied to the code by byte-for-byte "
      "correspondence of proof_gen under the production RNG (draws logged and replayed into the model) over all 2^L subsets for small L and sampled subsets up to L = 300.",
      "DESIGN.md §10 C03")
+prop("C04", "proof",
+     "Proved: every proof with an identity among Abar, Bbar, D is rejected both by the decoder and by the verifier itself (the F1 universal-forgery family, repaired by "
+     "commit fc846b8), only 272 + 32 k octets decode, and an accepted proof pins its challenge to the hash of the recomputed (T1, T2, domain, disclosed data, ph) and satisfies "
+     "the pairing equation with non-identity points. PARTIAL: the 'any single edit of the statement / any bit flip is rejected' clauses rest on collision resistance and are "
+     "decided by correspondence (the model's decision on every mutated instance equals zkryptium's) + sweep: all single-bit flips of proofs, whole-scalar truncation / extension, "
+     "statement edits, and forgeries built without a signature (identity / Bv / P1 / Q1 families, torsion pairs outside the subgroup that cancel).", "DESIGN.md §10 C04")
+prop("C05", "proof",
+     "Coq theorems for all M, L >= 0: commit_valid (Schnorr completeness, 112 + 32 M octets, accepted by the signer-side validation over any extending blind-generator set), "
+     "blind_sign_verify_complete and blind_sign_no_commit_complete (signer's (len-80)/32 = M+1 and get(1..len-1) of M+2 blind generators are the verifier's J_1..J_M: same domain, "
+     "same B), blind_proof_complete for every pair of disclosure lists (index translation j -> j+L+1 sorted / deduplicated, M recomputed from U, R1, R2, L). Correspondence: all "
+     "2^L x 2^M pairs for small shapes, byte for byte with logged randomness.", "DESIGN.md §10 C05")
+prop("C06", "proof",
+     "Proved: gating (blind_sign returns a signature only if the commitment is absent or core_commit_verify accepted it against this suite's blind generators), strict framing "
+     "(only 112 + 32 k octets decode; canonical re-encoding), accepted commitment proofs pin the challenge to the hash of (M, generators, C, recomputed Cbar). PARTIAL: rejection "
+     "of bit-flipped / transplanted / cross-suite commitments and binding of blind signatures and blind proofs rest on collision resistance: correspondence + sweep (all "
+     "single-bit flips of commitments and blind proofs, scalar- and byte-granular resizing, cross-suite, edits of every input), history pass for state-dependent acceptance.",
+     "DESIGN.md §10 C06")
+prop("C07", "proof",
+     "Proved (algebra of how the draws are used): the witness holder's recomputation of every blinding scalar of a proof / commitment returns exactly the draws; reusing the "
+     "draws under two challenges reveals e and every hidden message by division. Tied to the code by byte-for-byte correspondence of proof_gen / commit / blind_proof_gen / "
+     "KeyPair::random against the logged production draws and a source-shape tie of the RNG call sites. PARTIAL: that thread_rng delivers fresh independent values lives in the "
+     "runtime: a statistical monitor (distinctness across runs, threads and processes; magnitude; window scan of proofs for hidden scalars) supports it, does not prove it.",
+     "DESIGN.md §10 C07")
 prop("C08", "proof",
      "no_panic theorems for ALL byte strings / index lists / counts for every decoder and every verifier, signer and holder entry point of the Rust-semantics model "
      "(slices, checked/unchecked usize arithmetic, unwrap), plus work bounds on the number of generators requested; tied to the code by outcome-class (Ok/Err/Panic/timeout) "
